@@ -279,10 +279,10 @@ func phaseFamily(env *Env) error {
 
 // ---- free-running hook logs -------------------------------------------------------------------------
 type phCfg struct {
-	N    int `json:"n"`
-	Nw   int `json:"nw"`
-	Scap int `json:"scap"`
-	Ocap int `json:"ocap"`
+	N    int   `json:"n"`
+	Nw   int   `json:"nw"`
+	Scap int   `json:"scap"`
+	Ocap int   `json:"ocap"`
 	Fail []int `json:"fail"`
 }
 type phRun struct {
